@@ -75,6 +75,83 @@ Lemma wp_rlift {A} spec (r : res A) (Q : A -> N -> Prop) off :
   post Q off r -> wp spec (rlift r) Q off.
 Proof. destruct r; cbn; auto. Qed.
 
+
+(** * The partial variant: [RPanic] leaves are not judged.  Quantitative facts
+    (offsets, queue sizes) are proved with [wpp], freedom from panics with
+    [wp]; [wp_conj_partial] puts them together. *)
+Fixpoint wpp {A} (spec : opspec) (p : rprog A) (Q : A -> N -> Prop) (off : N) : Prop :=
+  match p with
+  | RRet a => Q a off
+  | RErr _ => True
+  | RPanic => True
+  | ROp o k => forall r off', spec o off r off' -> wpp spec (k r) Q off'
+  end.
+
+Definition postp {A} (Q : A -> N -> Prop) (off : N) (r : res A) : Prop :=
+  match r with Ok a => Q a off | Err _ => True | Panic => True end.
+
+Lemma wp_wpp {A} spec (p : rprog A) Q : forall off, wp spec p Q off -> wpp spec p Q off.
+Proof.
+  induction p as [a|e| |o k IH]; cbn; intros off H; [auto|auto|auto|].
+  intros r off' Hs. apply IH. apply H. exact Hs.
+Qed.
+
+Lemma wpp_mono {A} spec (p : rprog A) (Q Q' : A -> N -> Prop) :
+  (forall a off, Q a off -> Q' a off) -> forall off, wpp spec p Q off -> wpp spec p Q' off.
+Proof.
+  intros HQ. induction p as [a|e| |o k IH]; cbn; intros off H; [auto|auto|auto|].
+  intros r off' Hs. apply IH. apply H. exact Hs.
+Qed.
+
+Lemma wpp_spec_mono {A} (spec spec' : opspec) (p : rprog A) Q :
+  (forall o off r off', spec' o off r off' -> spec o off r off') ->
+  forall off, wpp spec p Q off -> wpp spec' p Q off.
+Proof.
+  intros Hs. induction p as [a|e| |o k IH]; cbn; intros off H; [auto|auto|auto|].
+  intros r off' Hs'. apply IH. apply H. apply Hs. exact Hs'.
+Qed.
+
+Lemma wpp_bind {A B} spec (p : rprog A) (f : A -> rprog B) (Q : B -> N -> Prop) :
+  forall off, wpp spec p (fun a off1 => wpp spec (f a) Q off1) off -> wpp spec (rbind p f) Q off.
+Proof.
+  induction p as [a|e| |o k IH]; cbn; intros off H; [auto|auto|auto|].
+  intros r off' Hs. apply IH. apply H. exact Hs.
+Qed.
+
+Lemma wpp_bind_with {A B} spec (p : rprog A) (f : A -> rprog B) (R : A -> N -> Prop) (Q : B -> N -> Prop) off :
+  wpp spec p R off -> (forall a off1, R a off1 -> wpp spec (f a) Q off1) -> wpp spec (rbind p f) Q off.
+Proof.
+  intros H1 H2. apply wpp_bind. eapply wpp_mono; [|exact H1]. exact H2.
+Qed.
+
+Lemma wpp_rlift {A} spec (r : res A) (Q : A -> N -> Prop) off :
+  postp Q off r -> wpp spec (rlift r) Q off.
+Proof. destruct r; cbn; auto. Qed.
+
+Lemma wpp_conj {A} spec (p : rprog A) (Q1 Q2 : A -> N -> Prop) :
+  forall off, wpp spec p Q1 off -> wpp spec p Q2 off -> wpp spec p (fun a o => Q1 a o /\ Q2 a o) off.
+Proof.
+  induction p as [a|e| |o k IH]; cbn; intros off H1 H2; [auto|auto|auto|].
+  intros r off' Hs. apply IH; auto.
+Qed.
+
+Lemma wp_conj_partial {A} spec (p : rprog A) (Q1 Q2 : A -> N -> Prop) :
+  forall off, wp spec p Q1 off -> wpp spec p Q2 off -> wp spec p (fun a o => Q1 a o /\ Q2 a o) off.
+Proof.
+  induction p as [a|e| |o k IH]; cbn; intros off H1 H2; [auto|auto|auto|].
+  intros r off' Hs. apply IH; auto.
+Qed.
+
+(** a [wpp] fact may use what a [wp] fact established for the intermediate value *)
+Lemma wpp_bind_using {A B} spec (p : rprog A) (f : A -> rprog B) (R R' : A -> N -> Prop) (Q : B -> N -> Prop) off :
+  wp spec p R off -> wpp spec p R' off ->
+  (forall a off1, R a off1 -> R' a off1 -> wpp spec (f a) Q off1) -> wpp spec (rbind p f) Q off.
+Proof.
+  intros H1 H2 H3. apply wpp_bind.
+  eapply wpp_mono; [|apply wp_wpp; apply (wp_conj_partial spec p R R' off H1 H2)].
+  intros a off1 [Ha Hb]. apply H3; assumption.
+Qed.
+
 (** * Soundness *)
 
 (** on any state type with any step function that respects [spec] *)
@@ -95,6 +172,16 @@ Section Sound.
     - exact H.
     - exact I.
     - contradiction.
+    - specialize (step_ok o s). destruct (step o s) as [s1 r]. cbn [fst snd] in *.
+      apply IH. apply H. exact step_ok.
+  Qed.
+  Lemma wpp_sound_grun {A} (p : rprog A) Q : forall s,
+    wpp spec p Q (offs s) -> postp Q (offs (fst (grun p s))) (snd (grun p s)).
+  Proof.
+    induction p as [a|e| |o k IH]; cbn [grun wpp]; intros s H.
+    - exact H.
+    - exact I.
+    - exact I.
     - specialize (step_ok o s). destruct (step o s) as [s1 r]. cbn [fst snd] in *.
       apply IH. apply H. exact step_ok.
   Qed.
@@ -273,6 +360,22 @@ Proof.
   set (q := a / b) in *. set (r := a mod b) in *. clearbody q r. nia.
 Qed.
 
+Lemma fuel_step want L ls off off1 f :
+  off1 = off + L -> L <= want -> off1 <= ls -> L <> 0 ->
+  (N.to_nat (N.min want (ls - off)) < S f)%nat -> (N.to_nat (N.min (want - L) (ls - off1)) < f)%nat.
+Proof. intros. lia. Qed.
+
+Lemma seek_bound p ps L : 4 < ps -> L mod ps = 0 -> p < L -> p - p / ps * 4 <= L / ps * (ps - 4) + 3.
+Proof.
+  intros H4 Hm Hp.
+  pose proof (N.div_mod p ps ltac:(lia)) as E. pose proof (N.mod_lt p ps ltac:(lia)) as Hr.
+  pose proof (N.div_mod L ps ltac:(lia)) as EL. rewrite Hm in EL.
+  set (q := p / ps) in *. set (r := p mod ps) in *. set (P := L / ps) in *. clearbody q r P. clear Hm.
+  assert (q < P) by nia.
+  assert (q * (ps - 4) + (ps - 4) <= P * (ps - 4)) by nia.
+  nia.
+Qed.
+
 Section G.
   Variables (ps : N) (phys : list N).
   Hypothesis ps4 : 4 < ps.
@@ -330,19 +433,20 @@ Section G.
         assert (Hne' : b :: got <> []) by discriminate.
         destruct (Hne Hne') as [Hls _].
         assert (Hpos : len (b :: got) <> 0) by (apply len_nonnil; exact Hne').
-        specialize (IH (want - len (b :: got)) (acc ++ b :: got) off1 off' r).
-        assert (Hf' : (N.to_nat (N.min (want - len (b :: got)) (ls - off1)) < f)%nat) by lia.
-        specialize (IH Hf' H).
-        destruct r as [l|k|]; [|lia|contradiction].
+        pose proof (fuel_step want (len (b :: got)) ls off off1 f Ho1 Hle Hls Hpos Hf) as Hf'.
+        specialize (IH (want - len (b :: got)) (acc ++ b :: got) off1 off' r Hf' H).
+        destruct r as [l|k|]; [|clear - IH Ho1; lia|contradiction].
         rewrite len_app in IH. destruct IH as (A1 & A2 & A3).
-        repeat split; try lia.
+        clear - A1 A2 A3 Ho1 Hle Hls Hpos.
+        set (L := len (b :: got)) in *. clearbody L.
+        repeat split; lia.
   Qed.
 
   Lemma gr_step_gspec o off : gspec ps ls o off (snd (gr_step ps phys o off)) (fst (gr_step ps phys o off)).
   Proof.
     destruct o as [p|n|n|]; unfold gr_step; cbv zeta.
     - destruct (len phys <=? p) eqn:E; cbn; [lia|].
-      split; [reflexivity|]. subst ls. nia.
+      split; [reflexivity|]. subst ls. apply seek_bound; [exact ps4|exact Hmod|lia].
     - destruct (gr_read ps phys n off) as [off1 r] eqn:Eg.
       pose proof (gr_read_spec n off off1 r Eg) as Hs.
       destruct r as [l|k|]; cbn in *; [exact Hs|lia|contradiction].
@@ -363,6 +467,13 @@ Section G.
     apply (wp_sound_grun (gr_step ps phys) (fun o => o) (gspec ps ls)); [|exact H].
     intros o s0. apply gr_step_gspec.
   Qed.
+  Theorem wpp_sound_g {A} (p : rprog A) (Q : A -> N -> Prop) : forall off,
+    wpp (gspec ps ls) p Q off -> postp Q (fst (rrun_g ps phys p off)) (snd (rrun_g ps phys p off)).
+  Proof.
+    intros off H. rewrite rrun_g_is_grun.
+    apply (wpp_sound_grun (gr_step ps phys) (fun o => o) (gspec ps ls)); [|exact H].
+    intros o s0. apply gr_step_gspec.
+  Qed.
 End G.
 
 (** on the paged reader model, for every state satisfying the invariant *)
@@ -378,9 +489,60 @@ Proof.
   apply wp_sound_g; [exact (inv_ps4 _ _ _ I)|exact (inv_mod _ _ _ I)|exact H].
 Qed.
 
+Theorem wpp_sound_rrun {A} ps phys (p : rprog A) (Q : A -> N -> Prop) : forall s,
+  pr_inv ps phys s ->
+  wpp (gspec ps (pr_log_size s)) p Q (pr_off s) ->
+  postp Q (pr_off (fst (rrun p s))) (snd (rrun p s)).
+Proof.
+  intros s I H.
+  destruct (rrun_g_equiv ps phys A p s I) as (E1 & I1 & E2).
+  rewrite E1, E2. rewrite (inv_log _ _ _ I) in H.
+  apply wpp_sound_g; [exact (inv_ps4 _ _ _ I)|exact (inv_mod _ _ _ I)|exact H].
+Qed.
+
 (** the logical size and the other constants of a reader never change *)
 Lemma rrun_log_size {A} ps phys (p : rprog A) s : pr_inv ps phys s -> pr_log_size (fst (rrun p s)) = pr_log_size s.
 Proof.
   intros I. pose proof (rrun_preserves_inv ps phys A p s I) as I1.
   rewrite (inv_log _ _ _ I), (inv_log _ _ _ I1). reflexivity.
 Qed.
+
+(** * The four primitives under any [spec] that at least fixes shapes *)
+Section Prims.
+  Variable spec : opspec.
+  Hypothesis spec_shape : forall o off r off', spec o off r off' -> shape_ok o r.
+
+  Lemma wp_r_read_exact n (Q : list N -> N -> Prop) off :
+    (forall l off', spec (PrReadExact n) off (Ok (PoBytes l)) off' -> Q l off') -> wp spec (r_read_exact n) Q off.
+  Proof.
+    intros H. cbn. intros r off' Hs. pose proof (spec_shape _ _ _ _ Hs) as Hsh.
+    destruct r as [[x|l|]|k|]; cbn in *; try contradiction; auto.
+  Qed.
+
+  Lemma wp_r_read e n (Q : list N -> N -> Prop) off :
+    (forall l off', spec (PrRead n) off (Ok (PoBytes l)) off' -> Q l off') -> wp spec (r_read e n) Q off.
+  Proof.
+    intros H. cbn. intros r off' Hs. pose proof (spec_shape _ _ _ _ Hs) as Hsh.
+    destruct r as [[x|l|]|k|]; cbn in *; try contradiction; auto.
+  Qed.
+
+  Lemma wp_r_seek p (Q : unit -> N -> Prop) off :
+    (forall n off', spec (PrSeek p) off (Ok (PoNum n)) off' -> Q tt off') -> wp spec (r_seek p) Q off.
+  Proof.
+    intros H. cbn. intros r off' Hs. pose proof (spec_shape _ _ _ _ Hs) as Hsh.
+    destruct r as [[x|l|]|k|]; cbn in *; try contradiction; eauto.
+  Qed.
+
+  Lemma wp_r_align (Q : unit -> N -> Prop) off :
+    (forall off', spec PrAlign off (Ok PoUnit) off' -> Q tt off') -> wp spec r_align Q off.
+  Proof.
+    intros H. cbn. intros r off' Hs. pose proof (spec_shape _ _ _ _ Hs) as Hsh.
+    destruct r as [[x|l|]|k|]; cbn in *; try contradiction; eauto.
+  Qed.
+End Prims.
+
+Lemma shape_spec_shape : forall o off r off', shape_spec o off r off' -> shape_ok o r.
+Proof. intros o off r off' H. exact H. Qed.
+
+Lemma gspec_shape_ok ps ls : forall o off r off', gspec ps ls o off r off' -> shape_ok o r.
+Proof. intros o off r off' H. exact (gspec_shape ps ls o off r off' H). Qed.
